@@ -64,6 +64,15 @@ EW = dict(op="ExpireWait")
 for i in range(2):
     beh("f07_expired%d" % i, ["C07", "C09"], cfg(life=8, sw=(i == 1)), [E("k1"), D("k1"), NN("k2"), D("k2"), EW, D("k1"), D("k2"), D("k2", "one", "nested"), AP("k2"), D("k2"), D("k2", "many"), NN("k3"), D("k3"),
                                                                      D("k1", "one", "nested"), RG("k1", "foreign")])
+# real time, adversarial clients across the phases of the root pair: "certified by a CURRENTLY VALID root" is the time-dependent
+# half of C02 (8 s roots: early [0,4) overlap [4,8); after the promotion early again until ~8.6, late from 12)
+WO = dict(op="WaitOverlap")
+for nidl in (False, True):
+    beh("f02_phases" + ("n" if nidl else ""), ["C02", "C07"], cfg(life=8, nidl=nidl),
+        [E("k1"), C("k1"), C("k1", chain="b1"), C("k1", pref="next"), C("k1", chain="b1", pref="next"), WO,
+         C("k1"), C("k1", chain="b1"), C("k1", chain="b1", pref="next"), C("k1", pref="next"), C("k1", chain="b1", priv=False), E("k2"), D("k1"), RW,
+         C("k1"), C("k1", chain="b1"), C("k1", chain="b1", pref="next"), C("k2", chain="b1", pref="none"), D("k1"), D("k2"), E("k3"), C("k3"), C("k3", chain="b1"), C("k3", ck="k1", chain="b1"), EW,
+         C("k1", chain="b1"), C("k3"), C("k3", chain="b1", pref="next"), C("k3", chain="b1", pref="cur"), C("k3", chain="b1", pref="none"), C("k3", chain="b1", pref="next", nsig="kx"), D("k3")])
 def RN(k): return dict(op="RotateNode", k=k)
 def DP(k): return dict(op="DialPrev", k=k)
 def RP(k): return dict(op="RemovePrev", k=k)
